@@ -29,7 +29,7 @@ for prop in sorted({k[0] for k in logs}):
             shutil.copy(f, os.path.join(d, os.path.basename(f)))
         json.dump({"id": os.path.basename(d), "property": prop, "files": ch.get('files'), "what": ch.get('what'),
                    "needs_to_manifest": ch.get('needs_to_manifest'), "demo": ch.get('demo'),
-                   "author": "independent sub-agent (second round: told which ideas were already tried, asked for subtler / cooperating changes) given only the property text and a scratch worktree",
+                   "author": "independent sub-agent, later round (told which ideas had already been tried and asked for subtler changes) given only the property text and a scratch worktree",
                    "author_verification": ch.get('how_verified'),
                    "confirmed_by_me": {"base_commit": lg.get('base', 'HEAD of /repo at import time'), "how": "applied patch.diff in a scratch worktree; cargo test --workspace --no-fail-fast --offline; ran the demo on the pristine and on the patched tree",
                                        "tests_passed": int(lg['tests_passed']), "tests_failed": int(lg['tests_failed']),
